@@ -53,8 +53,9 @@ LEVEL = "exploration"
 RULE = (
     "seeded generation of (entry-point kind x call chain of 1-5 frames over function/method/decorator/"
     "closure/recursion/imported-module frames x call-site statement kind x fault kind and statement "
-    "position x 1-3 occurrences interleaved with witness stimuli x decorator subsystem); distinct = "
-    "scenario digest; non-trivial = the fault was reached at least once in the simulation and natively"
+    "position x 1-3 occurrences interleaved with witness stimuli x decorator subsystem); half of the runs "
+    "steer away from the program shapes of the findings made on the unchanged tree; distinct = scenario "
+    "digest; non-trivial = the fault was reached at least once in the simulation and natively"
 )
 ASSUMPTIONS = [
     "reference for type, message and (file, function, line) triples is the running CPython (3.12) executing "
@@ -73,10 +74,16 @@ ASSUMPTIONS = [
     "when a file fails because a module it imports fails at load time, one report on the importing file's "
     "logger is required and at most one more on the module's logger is accepted",
     "state-variable stimuli are never delivered in bursts (C04/C05 territory); events and service calls are",
+    "stimuli start 0.5 virtual seconds after set-up (triggers start through executor jobs after "
+    "EVENT_HOMEASSISTANT_STARTED); @time_trigger entry points run without clock drift (extra period firings "
+    "under drift are C06/C07's subject) and only a lower bound of their occurrences is required",
+    "spec.steer (half of the runs): no decorator/recursion/same-named adjacent frames, no cause/context chains, "
+    "no import-time fault, no trigger-function entry in the new subsystem - the shapes of the findings on the "
+    "unchanged tree - so that the remaining clauses keep being judged in runs no known finding taints",
 ]
 TIERS = {
     "quick": {"runs": 8000, "chunk": 500, "shrink_budget": 25},
-    "thorough": {"runs": 100000, "chunk": 1000, "shrink_budget": 60},
+    "thorough": {"runs": 130000, "chunk": 1000, "shrink_budget": 60},
 }
 REACH_PROBES = [
     "fault_in_trigger_function", "fault_in_service", "fault_in_expression", "fault_in_expression_direct",
